@@ -482,6 +482,11 @@ _BINOPS = {
     ast.FloorDiv: lambda a, b: a // b,
     ast.Mod: lambda a, b: a % b,
     ast.Pow: lambda a, b: a**b,
+    ast.LShift: lambda a, b: a << b,
+    ast.RShift: lambda a, b: a >> b,
+    ast.BitOr: lambda a, b: a | b,
+    ast.BitAnd: lambda a, b: a & b,
+    ast.BitXor: lambda a, b: a ^ b,
 }
 
 
